@@ -286,6 +286,9 @@ def run(run: Run):
     bounded_wrap(run)
     wrap_known_classes(run)
     bounded_whitespace(run)
+    run.native_standin("props.C20_native", "scenarios",
+                       "BOUNDED: comments in every placement (leading / trailing / detached only) on service, method, message, field, enum, enum value - one- and multi-line, "
+                       "ending in a double quote - through the real generator: all words reach the element's docstring in order and every emitted module compiles")
     run.assume("Python lexical facts: outside string literals trailing blanks and the number of blank lines are not tokens; INDENT/DEDENT depend only on the leading whitespace of non-blank lines",
                "textwrap keeps word order")
     run.not_decided += ["the pandoc path of rst() (external program, absent here)",
@@ -297,12 +300,21 @@ def falsify(run, group, info):
     b = getattr(run, "_bounded_fail", None)
     if b is not None:
         return {"kind": "bounded", "failure": b}, True
-    return None, False
+    from vf.genlab import run_isolated
+    f = run_isolated("props.C20_native", "scenarios")
+    fails = [x for x in f["failures"] if not x.get("known")]
+    return ({"kind": "comments", "failures": fails[:6]}, True) if fails else (None, False)
 
 
 def replay(path):
     import json
     doc = json.load(open(path))
+    if (doc.get("replay") or {}).get("kind") in ("comments", "native"):
+        from vf.genlab import run_isolated
+        r = run_isolated("props.C20_native", "scenarios")
+        fails = [x for x in r["failures"] if not x.get("known")]
+        print("comment scenarios ->", json.dumps(fails[:4])[:1500] if fails else f"conform ({r['cases']} checks)")
+        return 1 if fails else 0
     f = (doc.get("replay") or {}).get("failure")
     if not f:
         print("no concrete input in the replay file; verifier output:", json.dumps(doc.get("open"))[:1200])
